@@ -70,8 +70,14 @@ def write(pid, tier, seed, cfg, unit_results, obligations, bounded, structural, 
                                           "contract_assumed_not_proved": bool(f.get("assumed"))}
                                          for f in under_contract],
             "per_function": funcs,
-            "obligation_list": [{"id": o["id"], "status": o["status"], "backend": o["backend"], "tags": o["tags"]}
+            "obligation_list": [dict({"id": o["id"], "status": o["status"], "backend": o["backend"], "tags": o["tags"]},
+                                     **({"discharges_a_contract_this_property_assumes": True} if o.get("assumed_by") else {}))
                                 for o in obligations],
+            "assumed_contracts_discharged_here": {
+                "what": "obligations of other units of this repository that discharge contracts this property's units assume "
+                        "(trusted signatures in their templates); selected per clause by props.PROPS[id]['assumes']",
+                "selection": cfg.get("assumes") or {},
+                "count": len([o for o in obligations if o.get("assumed_by")])},
             "solver_time_ms": solver_ms,
             "extraction": extraction,
             "canaries": canaries,
